@@ -24,6 +24,7 @@ static struct op OPS[64];
 static int NOPS;
 static int NFILES = 4, NKIN = 3;
 static char FILES[4][400];
+static struct kx_set FILESET[4];        /* names and ungapped residues of each input file, by the independent parsers */
 
 static void add_op(int kind, int s, int t, int arg, const char* fmt, ...)
 {
@@ -163,10 +164,37 @@ void vh_init(int tier)
         vh_write_file(FILES[3], txt, strlen(txt));
         free(txt);
         kx_set_free(&s);
+        for(i = 0; i < NFILES; i++){
+                size_t n = 0;
+                char* data = vh_read_file(FILES[i], &n);
+                struct fp_aln a;
+                int k;
+                kx_set_init(&FILESET[i]);
+                if(i == 1){
+                        fp_parse_clustal(data, &a);
+                }else{
+                        fp_parse_fasta(data, &a);
+                }
+                for(k = 0; k < a.n; k++){
+                        char* u = malloc(strlen(a.row[k]) + 1);
+                        int o = 0;
+                        const char* c;
+                        for(c = a.row[k]; *c; c++){
+                                if(*c != '-' && *c != '.'){
+                                        u[o++] = *c;
+                                }
+                        }
+                        u[o] = 0;
+                        kx_set_add(&FILESET[i], u, a.name[k]);
+                        free(u);
+                }
+                fp_free(&a);
+                free(data);
+        }
 }
 
 /* ---- executing a history in a fresh process ---- */
-struct hres { uint64_t r[8]; int n; int leak; int done; };
+struct hres { uint64_t r[8]; int n; int leak; int done; char invalid[400]; };
 static struct hres* SHR;
 
 static uint64_t hash_bytes(const void* p, size_t n, uint64_t h)
@@ -200,7 +228,10 @@ static uint64_t hash_file_masked(const char* path)
 static void exec_history(const int* h, int n)
 {
         struct msa* slot[2] = {NULL, NULL};
+        static struct kx_set expect[2];
         int i, j;
+        expect[0].n = 0;
+        expect[1].n = 0;
         static const int TYPE3[3] = {KALIGN_TYPE_UNDEFINED, KALIGN_TYPE_DNA_INTERNAL, KALIGN_TYPE_PROTEIN_DIVERGENT};
         for(i = 0; i < n; i++){
                 const struct op* o = &OPS[h[i]];
@@ -238,6 +269,15 @@ static void exec_history(const int* h, int n)
                 case OP_R:
                         rc = kalign_read_input(FILES[o->arg], &slot[o->s], 1);
                         r = hash_bytes(&rc, sizeof rc, r);
+                        if(rc == OK){
+                                int q;
+                                for(q = 0; q < FILESET[o->arg].n && expect[o->s].n < KX_MAXSEQ; q++){
+                                        int e = expect[o->s].n++;
+                                        expect[o->s].seq[e] = FILESET[o->arg].seq[q];
+                                        expect[o->s].len[e] = FILESET[o->arg].len[q];
+                                        expect[o->s].name[e] = FILESET[o->arg].name[q];
+                                }
+                        }
                         if(slot[o->s]){
                                 struct msa* m = slot[o->s];
                                 r = hash_bytes(&m->numseq, sizeof(int), r);
@@ -254,9 +294,19 @@ static void exec_history(const int* h, int n)
                         rc = kalign_run(m, o->arg == 1 ? C16_THREADS_ALT : 1, TYPE3[o->arg], o->arg == 1 ? 4.0f : -1.0f, -1.0f, -1.0f);
                         r = hash_bytes(&rc, sizeof rc, r);
                         if(rc == OK){
+                                char why[300];
+                                char** rows;
+                                char** names;
                                 for(j = 0; j < m->numseq; j++){
                                         r = hash_bytes(m->sequences[j]->seq, strlen(m->sequences[j]->seq) + 1, r);
                                 }
+                                /* whatever came before: a successful run must return a valid alignment of what was read into the object */
+                                kx_msa_rows(m, &rows, &names);
+                                if(kx_check_alignment(&expect[o->s], m->numseq, rows, names, m->alnlen, why, sizeof why)){
+                                        snprintf((char*)SHR->invalid, sizeof SHR->invalid, "call %d (%s): %s", i + 1, o->name, why);
+                                }
+                                kx_free_rows(rows, m->numseq);
+                                kx_free_rows(names, m->numseq);
                         }
                         break;
                 }
@@ -284,6 +334,7 @@ static void exec_history(const int* h, int n)
                 case OP_F:
                         kalign_free_msa(slot[o->s]);
                         slot[o->s] = NULL;
+                        expect[o->s].n = 0;
                         break;
                 }
                 SHR->r[i] = r;
@@ -366,6 +417,9 @@ int vh_case(uint64_t id, int tier)
                 hist_str(h, n, hs, sizeof hs);
                 fprintf(stderr, "history process terminated abnormally (%s) after %d of %d calls: %s\n", how, res.n, n, hs);
                 _exit(66);
+        }
+        if(res.invalid[0]){
+                vh_fail("sem:invalid-alignment-in-history", "kalign_run returned OK with an alignment that is not a valid alignment of the sequences read into the object: %s", res.invalid);
         }
         if(res.leak){
                 vh_fail("leak", "after the history and freeing all objects, allocations made by the library remain (LeakSanitizer)");
